@@ -179,3 +179,60 @@ Proof.
   - destruct ((k <? next s) && negb (memb k (live s)) && negb (memb k (exited s))); [|intros H; exfalso; exact (cons_neq _ _ H)].
     destruct co; [|destruct (reg s)]; cbn [got]; intros H; exfalso; exact (cons_neq _ _ H).
 Qed.
+
+(* ---------------------------------------------------------------- re-adding after a removal *)
+(* the same two facts from any state of the invariant *)
+Lemma managed_step s e i :
+  RInv s -> e <> RRemove -> reg s = Some i -> reg (rstep flags_repaired s e) = Some i.
+Proof.
+  intros [Ha Hb _ _ He] Hne Hr.
+  destruct e as [c|c|c| |k]; cbn [rstep flags_repaired create_under_lock cleanup_own_only].
+  - destruct (pend_find c (pend s)); [exact Hr|]. rewrite Hr. reflexivity.
+  - exact Hr.
+  - destruct (pend_find c (pend s)); [|exact Hr]. rewrite Hr. cbn [orb reg]. reflexivity.
+  - congruence.
+  - destruct ((k <? next s) && negb (memb k (live s)) && negb (memb k (exited s))) eqn:G; [|exact Hr].
+    apply andb_true_iff in G as [G _]. apply andb_true_iff in G as [_ G].
+    apply negb_true_iff, memb_false in G. cbn [reg]. rewrite Hr.
+    destruct (i =? k) eqn:E; [|reflexivity]. apply Nat.eqb_eq in E. subst k.
+    exfalso. apply G, Hb, Hr.
+Qed.
+
+Lemma got_step fl s e :
+  got (rstep fl s e) = got s \/
+  exists c i, got (rstep fl s e) = (c, i) :: got s /\ reg (rstep fl s e) = Some i.
+Proof.
+  destruct fl as [cu co]. destruct e as [d|d|d| |k]; cbn [rstep create_under_lock cleanup_own_only].
+  - destruct (pend_find d (pend s)); [left; reflexivity|].
+    destruct (reg s) eqn:Er; cbn [got reg]; [right; eauto|left; reflexivity].
+  - destruct cu; [left; reflexivity|]. destruct (pend_find d (pend s)) as [[x|]|]; left; reflexivity.
+  - destruct (pend_find d (pend s)) as [b|]; [|left; reflexivity].
+    destruct (reg s) eqn:Er.
+    + destruct (cu || match b with Some _ => true | None => false end); cbn [got reg]; [right; eauto|left; reflexivity].
+    + destruct b; cbn [got reg]; [right; eauto|]. destruct cu; cbn [got reg]; [right; eauto|left; reflexivity].
+  - destruct (reg s); left; reflexivity.
+  - destruct ((k <? next s) && negb (memb k (live s)) && negb (memb k (exited s))); [|left; reflexivity].
+    destruct co; [|destruct (reg s)]; cbn [got]; left; reflexivity.
+Qed.
+
+(* whoever is answered after the last removal leaves the name managed by a running supervisor *)
+Lemma readd_fold evs : forall s,
+  RInv s -> Forall (fun e => e <> RRemove) evs ->
+  let s' := fold_left (rstep flags_repaired) evs s in
+  (reg s <> None \/ length (got s) < length (got s')) ->
+  exists i, reg s' = Some i /\ In i (live s').
+Proof.
+  induction evs as [|e evs IH]; intros s I F s' H.
+  - cbn [fold_left] in s'. subst s'. destruct H as [H|H]; [|lia].
+    destruct (reg s) as [i|] eqn:Er; [|congruence]. exists i. split; [reflexivity|].
+    apply (inv_reg_live _ I), Er.
+  - inversion F as [|x l Fe Fl]; subst. cbn [fold_left] in s'.
+    assert (I1 : RInv (rstep flags_repaired s e)) by (apply (rinv_step true), I).
+    apply (IH _ I1 Fl). fold s'.
+    destruct (reg s) as [i|] eqn:Er.
+    + left. rewrite (managed_step s e i I Fe Er). discriminate.
+    + destruct H as [H|H]; [congruence|].
+      destruct (got_step flags_repaired s e) as [G|[c [i [G R]]]].
+      * right. rewrite G. exact H.
+      * left. rewrite R. discriminate.
+Qed.
